@@ -183,4 +183,224 @@ theorem heightfield2_aabb_contains (h0 : K) (hs : List K) (s : V2 K) (u h : K)
   rw [e1, e2]
   exact ⟨bx, by'⟩
 
+/-! ## tightness of the 2-D root box, TriMesh, Polyline -/
+
+private theorem foldl_merged_phi2 (φ : Aabb2 K → K)
+    (hφ : ∀ a b : Aabb2 K, φ (@Aabb2.merged K (fieldNum K sq) a b) = max (φ a) (φ b)) (ls : List (Aabb2 K)) :
+    ∀ acc : Aabb2 K,
+      (φ (ls.foldl (fun a b => @Aabb2.merged K (fieldNum K sq) a b) acc) = φ acc ∨
+        ∃ l ∈ ls, φ (ls.foldl (fun a b => @Aabb2.merged K (fieldNum K sq) a b) acc) = φ l) ∧
+      (∀ l ∈ ls, φ l ≤ φ (ls.foldl (fun a b => @Aabb2.merged K (fieldNum K sq) a b) acc)) ∧
+      φ acc ≤ φ (ls.foldl (fun a b => @Aabb2.merged K (fieldNum K sq) a b) acc) := by
+  induction ls with
+  | nil => intro acc; exact ⟨Or.inl rfl, (fun l h => by cases h), le_refl _⟩
+  | cons x xs ih =>
+    intro acc
+    obtain ⟨h1, h2, h3⟩ := ih (@Aabb2.merged K (fieldNum K sq) acc x)
+    simp only [List.foldl_cons]
+    rw [hφ] at h1 h3
+    refine ⟨?_, ?_, le_trans (le_max_left _ _) h3⟩
+    · rcases h1 with h | ⟨l, hl, h⟩
+      · rcases le_total (φ acc) (φ x) with hle | hle
+        · right; exact ⟨x, List.mem_cons_self .., by rw [h, max_eq_right hle]⟩
+        · left; rw [h, max_eq_left hle]
+      · right; exact ⟨l, List.mem_cons_of_mem _ hl, h⟩
+    · intro l hl
+      rcases List.mem_cons.1 hl with rfl | hl
+      · exact le_trans (le_max_right _ _) h3
+      · exact h2 l hl
+
+private theorem root_phi2 (φ : Aabb2 K → K)
+    (hφ : ∀ a b : Aabb2 K, φ (@Aabb2.merged K (fieldNum K sq) a b) = max (φ a) (φ b)) (rmax : K) (leaves : List (Aabb2 K))
+    (hne : leaves ≠ []) (hb : ∀ l ∈ leaves, φ (@Aabb2.invalid K (fieldNum K sq) rmax) ≤ φ l) :
+    ∃ l ∈ leaves, φ (@rootAabb2 K (fieldNum K sq) rmax leaves) = φ l := by
+  obtain ⟨h1, h2, _⟩ := foldl_merged_phi2 sq φ hφ leaves (@Aabb2.invalid K (fieldNum K sq) rmax)
+  rcases h1 with h | h
+  · obtain ⟨l0, hl0⟩ := List.exists_mem_of_ne_nil leaves hne
+    refine ⟨l0, hl0, le_antisymm ?_ (h2 l0 hl0)⟩
+    show φ (leaves.foldl (fun a b => @Aabb2.merged K (fieldNum K sq) a b) (@Aabb2.invalid K (fieldNum K sq) rmax)) ≤ φ l0
+    rw [h]; exact hb l0 hl0
+  · exact h
+
+def InRange2 (rmax : K) (l : Aabb2 K) : Prop := (l.mins.x ≤ rmax ∧ l.mins.y ≤ rmax) ∧ (-rmax ≤ l.maxs.x ∧ -rmax ≤ l.maxs.y)
+
+/-- **the 2-D QBVH root box is tight**: each of its four faces is the corresponding face of one of the leaf boxes. -/
+theorem root_aabb2_tight (rmax : K) (leaves : List (Aabb2 K)) (hne : leaves ≠ []) (hb : ∀ l ∈ leaves, InRange2 rmax l) :
+    letI := fieldNum K sq
+    (∃ l ∈ leaves, (rootAabb2 rmax leaves).maxs.x = l.maxs.x) ∧ (∃ l ∈ leaves, (rootAabb2 rmax leaves).mins.x = l.mins.x) ∧
+    (∃ l ∈ leaves, (rootAabb2 rmax leaves).maxs.y = l.maxs.y) ∧ (∃ l ∈ leaves, (rootAabb2 rmax leaves).mins.y = l.mins.y) := by
+  have mx : ∀ a b : K, -(min a b) = max (-a) (-b) := fun a b => (max_neg_neg a b).symm
+  refine ⟨?_, ?_, ?_, ?_⟩
+  · exact root_phi2 sq (fun b => b.maxs.x) (fun a b => by simp only [Aabb2.merged, V2.sup, fieldNum_nmax]) rmax leaves hne
+      (fun l hl => by simp only [Aabb2.invalid]; exact (hb l hl).2.1)
+  · obtain ⟨l, hl, h⟩ := root_phi2 sq (fun b => -b.mins.x) (fun a b => by simp only [Aabb2.merged, V2.inf, fieldNum_nmin, mx]) rmax leaves hne
+      (fun l hl => by simp only [Aabb2.invalid]; linarith [(hb l hl).1.1])
+    exact ⟨l, hl, neg_injective h⟩
+  · exact root_phi2 sq (fun b => b.maxs.y) (fun a b => by simp only [Aabb2.merged, V2.sup, fieldNum_nmax]) rmax leaves hne
+      (fun l hl => by simp only [Aabb2.invalid]; exact (hb l hl).2.2)
+  · obtain ⟨l, hl, h⟩ := root_phi2 sq (fun b => -b.mins.y) (fun a b => by simp only [Aabb2.merged, V2.inf, fieldNum_nmin, mx]) rmax leaves hne
+      (fun l hl => by simp only [Aabb2.invalid]; linarith [(hb l hl).1.2])
+    exact ⟨l, hl, neg_injective h⟩
+
+private theorem mapM_rev2 {α β : Type} (f : α → Option β) :
+    ∀ (l : List α) (r : List β), l.mapM f = some r → ∀ y ∈ r, ∃ x ∈ l, f x = some y := by
+  intro l
+  induction l with
+  | nil => intro r h y hy; simp at h; subst h; cases hy
+  | cons a as ih =>
+    intro r h y hy
+    rw [List.mapM_cons] at h
+    cases hfa : f a with
+    | none => simp [hfa] at h
+    | some y0 =>
+      cases hrest : as.mapM f with
+      | none => simp [hfa, hrest] at h
+      | some ys =>
+        simp [hfa, hrest] at h
+        subst h
+        rcases List.mem_cons.1 hy with rfl | hy
+        · exact ⟨a, List.mem_cons_self .., hfa⟩
+        · obtain ⟨x, hx, e⟩ := ih ys hrest y hy
+          exact ⟨x, List.mem_cons_of_mem _ hx, e⟩
+
+/-- **`Polyline::local_aabb` (2-D) is exact**: each face of the cached root box carries a point of an indexed segment. -/
+theorem polyline2_local_aabb_tight (rmax : K) (vs : List (V2 K)) (idx : List (Nat × Nat)) (box : Aabb2 K) (hne : idx ≠ [])
+    (hr : ∀ v ∈ vs, (-rmax ≤ v.x ∧ v.x ≤ rmax) ∧ (-rmax ≤ v.y ∧ v.y ≤ rmax)) :
+    letI := fieldNum K sq
+    polylineLocalAabb2 rmax vs idx = some box →
+    Touches2 (fun q => ∃ t ∈ idx, ∃ a b, vs[t.1]? = some a ∧ vs[t.2]? = some b ∧ (Segment2.mk a b).Mem q) box := by
+  intro h
+  simp only [polylineLocalAabb2, Option.map_eq_some_iff] at h
+  obtain ⟨leaves, hl, rfl⟩ := h
+  have leaf : ∀ l ∈ leaves, ∃ t ∈ idx, ∃ a b, vs[t.1]? = some a ∧ vs[t.2]? = some b ∧
+      l = @segmentLocalAabb2 K (fieldNum K sq) a b := by
+    intro l hlm
+    obtain ⟨t, ht, e⟩ := mapM_rev2 _ _ _ hl l hlm
+    cases ha : vs[t.1]? with
+    | none => simp [ha] at e
+    | some a =>
+      cases hb : vs[t.2]? with
+      | none => simp [ha, hb] at e
+      | some b =>
+        simp only [ha, hb, Option.bind_eq_bind, Option.bind_some, Option.pure_def, Option.some.injEq] at e
+        exact ⟨t, ht, a, b, ha, hb, e.symm⟩
+  have hne' : leaves ≠ [] := by
+    obtain ⟨t, ht⟩ := List.exists_mem_of_ne_nil idx hne
+    obtain ⟨y, hy, _⟩ := mapM_fwd2 _ _ _ hl t ht
+    exact List.ne_nil_of_mem hy
+  have hin : ∀ l ∈ leaves, InRange2 rmax l := by
+    intro l hlm
+    obtain ⟨t, _, a, b, ha, hb, rfl⟩ := leaf l hlm
+    have ma := hr a (List.mem_of_getElem? ha)
+    have hmem : @Segment2.Mem K (fieldNum K sq) ⟨a, b⟩ a := ⟨0, le_refl _, zero_le_one, by
+      obtain ⟨x, y⟩ := a; simp [V2.add, V2.sub, V2.smul]⟩
+    obtain ⟨⟨x1, x2⟩, y1, y2⟩ := (segment_local_aabb2_contains_tight sq a b).1 a hmem
+    exact ⟨⟨le_trans x1 ma.1.2, le_trans y1 ma.2.2⟩, le_trans ma.1.1 x2, le_trans ma.2.1 y2⟩
+  obtain ⟨f1, f2, f3, f4⟩ := root_aabb2_tight sq rmax leaves hne' hin
+  have face : ∀ l ∈ leaves, Touches2 (fun q => ∃ t ∈ idx, ∃ a b, vs[t.1]? = some a ∧ vs[t.2]? = some b ∧
+      @Segment2.Mem K (fieldNum K sq) ⟨a, b⟩ q) l := by
+    intro l hlm
+    obtain ⟨t, ht, a, b, ha, hb, rfl⟩ := leaf l hlm
+    obtain ⟨⟨q1, m1, e1⟩, ⟨q2, m2, e2⟩, ⟨q3, m3, e3⟩, ⟨q4, m4, e4⟩⟩ := (segment_local_aabb2_contains_tight sq a b).2
+    exact ⟨⟨q1, ⟨t, ht, a, b, ha, hb, m1⟩, e1⟩, ⟨q2, ⟨t, ht, a, b, ha, hb, m2⟩, e2⟩, ⟨q3, ⟨t, ht, a, b, ha, hb, m3⟩, e3⟩,
+      ⟨q4, ⟨t, ht, a, b, ha, hb, m4⟩, e4⟩⟩
+  obtain ⟨l1, hl1, e1⟩ := f1; obtain ⟨l2, hl2, e2⟩ := f2; obtain ⟨l3, hl3, e3⟩ := f3; obtain ⟨l4, hl4, e4⟩ := f4
+  refine ⟨?_, ?_, ?_, ?_⟩
+  · obtain ⟨q, hq, e⟩ := (face l1 hl1).1; exact ⟨q, hq, by rw [e, e1]⟩
+  · obtain ⟨q, hq, e⟩ := (face l2 hl2).2.1; exact ⟨q, hq, by rw [e, e2]⟩
+  · obtain ⟨q, hq, e⟩ := (face l3 hl3).2.2.1; exact ⟨q, hq, by rw [e, e3]⟩
+  · obtain ⟨q, hq, e⟩ := (face l4 hl4).2.2.2; exact ⟨q, hq, by rw [e, e4]⟩
+
+private theorem min3_att' (x y z : K) : min (min x y) z = x ∨ min (min x y) z = y ∨ min (min x y) z = z := by
+  rcases le_total x y with h | h <;> rcases le_total (min x y) z with h' | h'
+  · left; rw [min_eq_left h', min_eq_left h]
+  · right; right; rw [min_eq_right h']
+  · right; left; rw [min_eq_left h', min_eq_right h]
+  · right; right; rw [min_eq_right h']
+private theorem max3_att' (x y z : K) : max (max x y) z = x ∨ max (max x y) z = y ∨ max (max x y) z = z := by
+  rcases le_total x y with h | h <;> rcases le_total (max x y) z with h' | h'
+  · right; right; rw [max_eq_right h']
+  · right; left; rw [max_eq_left h', max_eq_right h]
+  · right; right; rw [max_eq_right h']
+  · left; rw [max_eq_left h', max_eq_left h]
+
+/-- `Triangle::local_aabb` (2-D): each face carries a vertex -/
+theorem triangle2_local_aabb_tight (a b c : V2 K) :
+    letI := fieldNum K sq
+    Touches2 (fun q => q = a ∨ q = b ∨ q = c) (triangleLocalAabb2 a b c) := by
+  simp only [Touches2, triangleLocalAabb2, fieldNum_nmin, fieldNum_nmax]
+  refine ⟨?_, ?_, ?_, ?_⟩
+  · rcases max3_att' a.x b.x c.x with h | h | h
+    · exact ⟨a, Or.inl rfl, h.symm⟩
+    · exact ⟨b, Or.inr (Or.inl rfl), h.symm⟩
+    · exact ⟨c, Or.inr (Or.inr rfl), h.symm⟩
+  · rcases min3_att' a.x b.x c.x with h | h | h
+    · exact ⟨a, Or.inl rfl, h.symm⟩
+    · exact ⟨b, Or.inr (Or.inl rfl), h.symm⟩
+    · exact ⟨c, Or.inr (Or.inr rfl), h.symm⟩
+  · rcases max3_att' a.y b.y c.y with h | h | h
+    · exact ⟨a, Or.inl rfl, h.symm⟩
+    · exact ⟨b, Or.inr (Or.inl rfl), h.symm⟩
+    · exact ⟨c, Or.inr (Or.inr rfl), h.symm⟩
+  · rcases min3_att' a.y b.y c.y with h | h | h
+    · exact ⟨a, Or.inl rfl, h.symm⟩
+    · exact ⟨b, Or.inr (Or.inl rfl), h.symm⟩
+    · exact ⟨c, Or.inr (Or.inr rfl), h.symm⟩
+
+/-- **`TriMesh::local_aabb` (2-D) is exact**: each face of the cached root box carries a vertex of an indexed triangle. -/
+theorem trimesh2_local_aabb_tight (rmax : K) (vs : List (V2 K)) (idx : List (Nat × Nat × Nat)) (box : Aabb2 K) (hne : idx ≠ [])
+    (hr : ∀ v ∈ vs, (-rmax ≤ v.x ∧ v.x ≤ rmax) ∧ (-rmax ≤ v.y ∧ v.y ≤ rmax)) :
+    letI := fieldNum K sq
+    trimeshLocalAabb2 rmax vs idx = some box →
+    Touches2 (fun q => ∃ t ∈ idx, ∃ a b c, vs[t.1]? = some a ∧ vs[t.2.1]? = some b ∧ vs[t.2.2]? = some c ∧
+      (q = a ∨ q = b ∨ q = c)) box := by
+  intro h
+  simp only [trimeshLocalAabb2, Option.map_eq_some_iff] at h
+  obtain ⟨leaves, hl, rfl⟩ := h
+  have leaf : ∀ l ∈ leaves, ∃ t ∈ idx, ∃ a b c, vs[t.1]? = some a ∧ vs[t.2.1]? = some b ∧ vs[t.2.2]? = some c ∧
+      l = @triangleLocalAabb2 K (fieldNum K sq) a b c := by
+    intro l hlm
+    obtain ⟨t, ht, e⟩ := mapM_rev2 _ _ _ hl l hlm
+    cases ha : vs[t.1]? with
+    | none => simp [ha] at e
+    | some a =>
+      cases hb : vs[t.2.1]? with
+      | none => simp [ha, hb] at e
+      | some b =>
+        cases hc : vs[t.2.2]? with
+        | none => simp [ha, hb, hc] at e
+        | some c =>
+          simp only [ha, hb, hc, Option.bind_eq_bind, Option.bind_some, Option.pure_def, Option.some.injEq] at e
+          exact ⟨t, ht, a, b, c, ha, hb, hc, e.symm⟩
+  have hne' : leaves ≠ [] := by
+    obtain ⟨t, ht⟩ := List.exists_mem_of_ne_nil idx hne
+    obtain ⟨y, hy, _⟩ := mapM_fwd2 _ _ _ hl t ht
+    exact List.ne_nil_of_mem hy
+  have hin : ∀ l ∈ leaves, InRange2 rmax l := by
+    intro l hlm
+    obtain ⟨t, _, a, b, c, ha, hb, hc, rfl⟩ := leaf l hlm
+    have ma := hr a (List.mem_of_getElem? ha)
+    simp only [InRange2, triangleLocalAabb2, fieldNum_nmin, fieldNum_nmax]
+    refine ⟨⟨?_, ?_⟩, ?_, ?_⟩
+    · exact le_trans (le_trans (min_le_left _ _) (min_le_left _ _)) ma.1.2
+    · exact le_trans (le_trans (min_le_left _ _) (min_le_left _ _)) ma.2.2
+    · exact le_trans ma.1.1 (le_trans (le_max_left _ _) (le_max_left _ _))
+    · exact le_trans ma.2.1 (le_trans (le_max_left _ _) (le_max_left _ _))
+  obtain ⟨f1, f2, f3, f4⟩ := root_aabb2_tight sq rmax leaves hne' hin
+  have face : ∀ l ∈ leaves, Touches2 (fun q => ∃ t ∈ idx, ∃ a b c, vs[t.1]? = some a ∧ vs[t.2.1]? = some b ∧ vs[t.2.2]? = some c ∧
+      (q = a ∨ q = b ∨ q = c)) l := by
+    intro l hlm
+    obtain ⟨t, ht, a, b, c, ha, hb, hc, rfl⟩ := leaf l hlm
+    obtain ⟨⟨q1, m1, e1⟩, ⟨q2, m2, e2⟩, ⟨q3, m3, e3⟩, ⟨q4, m4, e4⟩⟩ := triangle2_local_aabb_tight sq a b c
+    exact ⟨⟨q1, ⟨t, ht, a, b, c, ha, hb, hc, m1⟩, e1⟩, ⟨q2, ⟨t, ht, a, b, c, ha, hb, hc, m2⟩, e2⟩,
+      ⟨q3, ⟨t, ht, a, b, c, ha, hb, hc, m3⟩, e3⟩, ⟨q4, ⟨t, ht, a, b, c, ha, hb, hc, m4⟩, e4⟩⟩
+  obtain ⟨l1, hl1, e1⟩ := f1; obtain ⟨l2, hl2, e2⟩ := f2; obtain ⟨l3, hl3, e3⟩ := f3; obtain ⟨l4, hl4, e4⟩ := f4
+  refine ⟨?_, ?_, ?_, ?_⟩
+  · obtain ⟨q, hq, e⟩ := (face l1 hl1).1; exact ⟨q, hq, by rw [e, e1]⟩
+  · obtain ⟨q, hq, e⟩ := (face l2 hl2).2.1; exact ⟨q, hq, by rw [e, e2]⟩
+  · obtain ⟨q, hq, e⟩ := (face l3 hl3).2.2.1; exact ⟨q, hq, by rw [e, e3]⟩
+  · obtain ⟨q, hq, e⟩ := (face l4 hl4).2.2.2; exact ⟨q, hq, by rw [e, e4]⟩
+
+example : InRange2 (10:ℚ) ⟨⟨0, 1⟩, ⟨3, 4⟩⟩ := by simp [InRange2]; norm_num
+
 end C09
